@@ -236,6 +236,11 @@ def run_driver(args, timeout=3600):
         where = r.stderr.split("DRIVER-PANIC at ", 1)[1].strip().splitlines()[0]
         if where and not where.startswith("src/"):
             raise CodePanic(args, where)
+    if r.returncode == -6 and "memory allocation of" in r.stderr:
+        # the Rust allocator aborts the process when an allocation fails: the harness allocates nothing of a size that
+        # depends on its input, so an impossible request comes from the code under test (e.g. a capacity computed from a
+        # configured limit)
+        raise CodePanic(args, "abort: " + [l for l in r.stderr.splitlines() if "memory allocation of" in l][-1].strip())
     if r.returncode != 0:
         raise ToolError(f"driver {args} failed (rc {r.returncode}):\n{r.stderr[-3000:]}")
     log(f"[drive] qv {' '.join(str(a) for a in args)}: {r.stderr.strip().splitlines()[-1] if r.stderr.strip() else ''} ({time.time() - t:.1f}s)")
@@ -485,7 +490,7 @@ def run_mc(res, name, module, cfg, workers=8, timeout=3600, expect_violation=Non
     t = time.time()
     r = run_tlc(modp, cfgp, workers=workers, timeout=timeout, extra=["-coverage", "1"] + list(extra), xmx="8g")
     out = r["out"]
-    violated = re.search(r"Error: Invariant (\w+) is violated|Error: Temporal properties were violated|Error: Deadlock reached", out)
+    violated = re.search(r"Error: Invariant (\w+) is violated|Error: Action property (\w+) is violated|Error: Temporal properties were violated|Error: Deadlock reached", out)
     log(f"[mc] {name}: {r['distinct']} distinct states, {'violation: ' + violated.group(0) if violated else 'no violation'} ({time.time() - t:.1f}s)")
     if "Error:" in out and not violated:
         raise ToolError(f"TLC failed on {module}/{cfg}:\n{out[-3000:]}")
@@ -721,7 +726,11 @@ def check_C14(res):
 def check_C16(res):
     q = res.tier == "quick"
     trace_stage(res, ["names", "text", res.seed, 8000 if q else 300000], "TraceNames", "names/text", ["C16"])
-    return "random names with arbitrary label octets ('.', '\\', space, NUL, non-ASCII, '*'), 63-octet labels, 255-octet names, 127 labels; pairs incl. case variants and superdomains; random text with escapes and boundary sizes"
+    # NameBuilder (what FromStr and the zone-file name parser drive, and public API in its own right)
+    run_mc(res, "MC_NameBuilder/impl", "MCNB.tla", "MCNB_impl.cfg", workers=2)
+    run_mc(res, "MC_NameBuilder/next_label_mutates_on_error", "MCNB.tla", "MCNB_next_label_mutates_on_error.cfg", workers=2, expect_violation="any")
+    trace_stage(res, ["names", "builder", res.seed, 3000 if q else 100000], "TraceNameBuilder", "names/builder", ["C16"])
+    return "(M) every sequence of NameBuilder operations, continued after errors, for scaled-down limits (state within limits, a failed operation changes nothing, every finished name valid; a slip that closes the label before checking for room must violate); (V) random operation sequences on the real NameBuilder biased to 63-octet labels and a buffer filled to 253..255 octets, each result, is_fully_qualified() and the finished name judged by NameBuilder.tla with 255 / 63; random names with arbitrary label octets ('.', '\\', space, NUL, non-ASCII, '*'), 63-octet labels, 255-octet names, 127 labels; pairs incl. case variants and superdomains; random text with escapes and boundary sizes"
 
 
 def check_C17(res):
@@ -757,13 +766,13 @@ def check_C12(res):
     # scope; four realistic slips must each violate an invariant; (G) the histories of its state graph on the real Writer
     if not q:
         run_mc(res, "MC_WriterSpace/impl", "MC_WriterSpace.tla", "MC_WriterSpace_impl.cfg", workers=8)
-    for v, inv in (("limit_ignores_reserved", "Ordered"), ("edns_no_check", "Ordered"), ("clear_returns_reserved", "ReservedKept"), ("tsig_compressed", "ReservedUsedExactly")):
+    for v, inv in (("limit_ignores_reserved", "Ordered"), ("edns_no_check", "Ordered"), ("clear_returns_reserved", "ReservedKept"), ("tsig_compressed", "ReservedUsedExactly"), ("template_keeps_limit", "Ordered")):
         run_mc(res, f"MC_WriterSpace/{v}", "MC_WriterSpace.tla", f"MC_WriterSpace_{v}.cfg", workers=2, expect_violation=inv)
     hist, nh = graph_histories(res, "MC_WriterSpace/graph", "MC_WriterSpace.tla", "MC_WriterSpace_graph_quick.cfg" if q else "MC_WriterSpace_graph.cfg", stride=6 if q else 25)
     trace_stage(res, ["writer", "replay", hist], "TraceWriterSpace", "writer/space-replay", ["C12"])
     os.remove(hist)
     res.notes["writer/space-replay"]["histories_replayed"] = nh
-    return "(M)+(G) Writer space accounting: every sequence of add_question / add_rr / set_limit / set_edns / set_tsig / clear_rrs / finish over small sizes keeps cursor <= available <= limit <= buffer, keeps reservations, and finishes within the limit using exactly what was reserved; one shortest history per (every k-th) transition of that graph is carried out on the real Writer and each recorded triple, result and final length is the specification's; (V) random sequences of 3-40 writer operations (header setters, questions, RRs and RRsets in all sections with truthful hints, nine RDATA shapes incl. SOA/SRV/CH A/unknown/invalid, set_limit, three compression modes, set_edns, extended RCODEs up to 65535, clear_rrs) on buffers of 40-4096 octets so that truncation is frequent"
+    return "(M)+(G) Writer space accounting: every sequence of add_question / add_rr / set_limit / set_edns / set_tsig / clear_rrs / into_template + try_from_template (other buffer sizes) / finish over small sizes keeps cursor <= available <= limit <= buffer, keeps reservations, and finishes within the limit using exactly what was reserved; one shortest history per (every k-th) transition of that graph is carried out on the real Writer and each recorded triple, result and final length is the specification's; (V) random sequences of 3-40 writer operations (header setters, questions, RRs and RRsets in all sections with truthful hints, nine RDATA shapes incl. SOA/SRV/CH A/unknown/invalid, set_limit, three compression modes, set_edns, extended RCODEs up to 65535, clear_rrs) on buffers of 40-4096 octets so that truncation is frequent"
 
 
 def check_C13(res):
